@@ -40,8 +40,11 @@ RASTERIZE_EDGES (pixman_image_t  *image,
 
     for (;;)
     {
-	pixman_fixed_t	lx;
-	pixman_fixed_t      rx;
+	/* wider than the edge coordinates: the rounding offset added below
+	 * must not carry a coordinate near 32768 into the sign bit
+	 */
+	pixman_fixed_48_16_t lx;
+	pixman_fixed_48_16_t rx;
 	int	lxi;
 	int rxi;
 
